@@ -9,6 +9,18 @@ CHECKS = {
    "seeded search over world-A histories (which reports reach the aggregator, order, duplicates, replayed copies; per-client OS entropy; three randomness sources incl. a simulated PPOPRF exchange); for each group with >= t distinct delivered points a drawn selection (t distinct + repeats + surplus, permuted) is decoded from wire bytes and must recover; every delivered report must decrypt to exactly its client's measurement and aux. Sampling, not proof.",
    "trusts strobe-rs, curve25519-dalek, serde/bincode, the vendored getrandom seam and the harness's independent layout parser; assumes no two honest clients draw the same 129-bit point",
    "deterministic simulation with fault injection (drop/dup/reorder/delay/replay), seeded schedule search, ideal-functionality oracle"),
+ "C02": ("exploration", "DESIGN.md §4 C02",
+   "seeded search over world-A histories with the aggregator and the wire acting as attacker at every aggregation moment on whatever sub-threshold material has arrived (as is; duplicate-padded; threshold field forged to 0..d+1, t-1, t+1, 2^32-1 in first/all shares; foreign shares of other measurements / the same measurement under another epoch or threshold mixed in): Ok is acceptable only as the secret of a group complete inside the collection. Every sent report is scanned at every offset for the client's secrets; the dealt polynomial is interpolated with big integers (exact degree, non-zero distinct coefficients, disjoint between groups). Structural, sampling evidence - not a cryptographic proof.",
+   "trusts strobe-rs and the big-integer model; r0/r1 needles are recomputed through the public strobe_digest (scan for those goes vacuous, never alarms, if the derivation is refactored)",
+   "deterministic simulation with fault injection (loss creates sub-threshold buckets, duplication creates padding, cross-delivery creates mixes, field rewrite forges thresholds); attacker battery + big-integer interpolation oracle"),
+ "C03": ("exploration", "DESIGN.md §4 C03",
+   "seeded search over world-A histories in which clients of one group attach different associated data; a wire observer checks per report (aux never in clear, no carried 16/32-byte window decrypts the payload) and per pair (two-time-pad relation ct1^ct2 == pt1^pt2 from the first differing byte). The relation DOES hold on the unchanged tree within the first divergent cipher block: recorded as known finding; anything else (relation beyond that block, aux in clear, carried key) is reported.",
+   "structural check only; relation over fewer than 8 bytes is treated as chance; cipher block = 166 bytes (Strobe-128 rate)",
+   "deterministic simulation; multi-client history observed on the wire; pairwise ciphertext-relation oracle"),
+ "C04": ("exploration", "DESIGN.md §4 C04",
+   "seeded search over histories of independent STARLite clients (own seeded entropy, no communication) over a family of confusable (measurement, epoch, threshold) triples; history tables triple -> (randomness, tag, key) must be a function and injective; share points pairwise distinct; complete groups recover (C01 oracle armed); key after recovery equals the clients' key. The confusable family is input generation and is labelled as such.",
+   "ignores chance collisions of 128/256-bit honest values",
+   "deterministic simulation (independent parties with controlled entropy); function/injection tables over the recorded history"),
  "C08": ("fault_enumeration", "DESIGN.md §4 C08",
    "every honest report / adss share / sharks share that crosses the simulated wire must decode to the sender's value and follow the documented layout as read by an independent parser; around each honest encoding the transport's fault set is enumerated (every prefix, every boundary value in each length/threshold field, 4 byte faults per offset, out-of-range field elements per slot, extensions, splices, garbage) and the real decoders must agree with the parser on accept/reject and on the canonical re-encoding. Enumeration is complete per honest message for the listed fault kinds; the honest messages themselves are sampled.",
    "trusts the ~150-line independent parser (models/layout.rs, num-bigint); decoder panics are counted and left to C09",
